@@ -8,6 +8,12 @@ clauses of the property: inverse pairs compose to the identity, composites equal
 compositions, exact power laws between ladder points, 5 mag = x100, linearity in area and
 time, single-layer reductions to 0.314 r0/h and 0.314 r0/v, axis argument == explicit loops
 over 1-D profiles, slope-variance <-> r0 on synthetic slopes with exactly known variance.
+
+Constants are anchored "to the rounding of the published constants" only (TOL_LAYER etc.); what no rounding explains
+is decided at 1e-12 (library / textbook is ONE number for every profile, shape and axis).  Inputs the statement does
+not quantify over (arrays handed to the scalar converters, integer / float32 / bool storage, a broadcast 1-D height
+vector, numpy scalars as wavelength) are extensions: skipped with a *_not_claimed statistic when the library rejects
+them with an exception, compared with the float64 / scalar result when it accepts them.
 """
 import itertools
 import math
@@ -23,24 +29,55 @@ ISOLATE_CASES = True     # each case in its own pristine process: verdicts canno
 ENGINES = ["E1-product-enumeration"]
 TECHNIQUE = ("bounded exhaustive enumeration of ladder products (values x wavelengths x bands x masks x "
              "array shapes x axes) through every converter; algebraic identities between the results")
-RULE = ("cases = inv:{pair x wavelength} + law:{function} + mag:{band} + phot:{band} + photmag + "
-        "layer:{wavelength} + axis:{function x shape} + slopes:{wavelength}; every case loops over the full "
+RULE = ("cases = inv:{pair x wavelength} + law:{function} + mag:{band} + phot:{band} + photmag + bandhist:{band} + "
+        "layer:{wavelength} + axis:{function x shape} + slopes:{wavelength} + zero_layers:{function} + caller_owned_"
+        "{profiles, slopes, masks} + slopes_aggregation + calling_conventions; every case loops over the full "
         "value ladders; non-trivial unless the integration axis has length 1 and rank 1")
 ASSUMPTIONS = [
     "values between ladder points are not covered; exact power laws are verified as exact relations "
     "between all ladder points so the lattice result extends along each scaling direction",
-    "tolerance 1e-12 relative for identities (measured <= 1e-15); 2.5e-3 for the single-layer reductions: the "
-    "published constants 0.0581 and 0.423 give the coefficient 0.31463, i.e. 1.997e-3 from the quoted 0.314, so the "
-    "design value 2e-3 was widened to 2.5e-3 to keep a margin (smallest planted constant error: 1e-2)",
-    "flux_to_magnitude returns a Python float, so the photometric inverse pair is decided on scalars; "
-    "magnitude_to_flux is also run on arrays",
-    "profile arrays: rank <= 3, axis lengths <= 3 (thorough: <= 4, plus rank 4 with lengths <= 2; every shape, every "
-    "axis incl. negative and the default), cn2 and the "
-    "height/velocity array of identical shape, plus a 1-D height/velocity vector broadcast along the last axis",
+    "tolerance 1e-12 relative for identities (measured <= 1e-14). Single-layer reductions: the published constants "
+    "0.0581 and 0.423 give the coefficient 0.31463, i.e. 1.997e-3 from the quoted 0.314 (a deterministic offset, no noise); "
+    "the half-ulp roundings of the three quoted constants (0.0581: 8.6e-4, 0.423: 0.6 x 1.2e-3, 0.314: 1.6e-3) add up to "
+    "3.2e-3, so 'to the rounding of the published constants' is decided at 6e-3 (3 x the measured offset; the exact "
+    "constant 0.4234 instead of 0.423 measures 2.6e-3; smallest planted constant error: 1e-2). What the rounding cannot "
+    "explain is decided sharply: the ratio theta0 h / r0 (tau0 v / r0) is ONE number for all Cn2, heights and speeds of a case "
+    "(1e-12), and library / textbook-sum is ONE number per function for all profiles, shapes and axes (1e-12), that "
+    "number being within 5e-3 of 1 (measured 1.58e-3 for 0.0581 vs (2.914 (2 pi)^2)^(-3/5); 0 for the Rytov constant)",
+    "the numerical constants 0.98 (seeing), 0.423 (r0) and 0.162 (slope variance) are anchored only to their rounding "
+    "(6e-3 / 3e-3 / 6e-3 against the reference formulas), the relations between the functions to 1e-12",
+    "flux_to_magnitude returns a Python float, so the photometric inverse pair is decided on scalars. Array arguments "
+    "to the scalar converters (magnitude_to_flux, the six Cn2 / r0 / seeing converters) are an EXTENSION of the statement: "
+    "if the library raises on them or does not return the shape of the argument the sub-clauses are skipped "
+    "(statistic array_elementwise_not_claimed / values_not_claimed); when it does accept them, the numbers must be those "
+    "of the scalar calls",
+    "profile arrays: rank <= 3, axis lengths <= 3 (thorough: <= 5, plus rank 4 with lengths <= 3; every shape, every "
+    "axis incl. negative and the default), cn2 and the height/velocity array of identical shape. Extensions that are "
+    "skipped (statistic *_not_claimed), not failed, when the library rejects the input with an exception: a 1-D "
+    "height/velocity vector broadcast along the last axis, integer / float32 profile, slope and mask arrays, numpy "
+    "scalars and 0-d arrays as wavelength",
+    "r0_from_slopes: the oracle (not the statement) fixes the variance over the frames to the population variance "
+    "(ddof = 0), as the library documents 'the variance of the given slopes'; how the sub-apertures and the two slope "
+    "directions are combined is NOT fixed (all rows of the inverse-pair histories have the same variance; with unequal "
+    "rows only symmetry under permutations and min <= result <= max of the per-row values are demanded)",
+    "defaults (500 nm, band V) and results after other calls are compared to 1e-15 relative (4 ulp), not bit for bit",
 ]
 
 TOL = 1e-12
-TOL_LAYER = 2.5e-3
+# single-layer reductions to 0.314 r0/h, 0.314 r0/v: measured 1.99729e-3 on the unchanged library (deterministic:
+# 0.0581 * 0.423^(3/5) * (2 pi)^(6/5) = 0.31463 against the quoted 0.314); budget of the three half-ulp roundings
+# 3.2e-3; 6e-3 = 3 x measured, and the more accurate constant 0.4234 (2.914 / 6.884) measures 2.57e-3
+TOL_LAYER = 6e-3
+# library / textbook sum [2.914 k^2 sum cn2 w^(5/3)]^(-3/5): measured 1.580e-3 (0.0581 vs 0.05801), 3 x margin
+TOL_TEXTBOOK = 5e-3
+# 0.98 lambda / r0: half-ulp of the two-digit constant 5.1e-3, the more accurate 0.976 is 4.1e-3 away (measured 0)
+TOL_SEEING_CONST = 6e-3
+# r0 = [0.423 k^2 J]^(-3/5): half-ulp of 0.423 is 0.6 x 1.2e-3 = 7.1e-4 in r0; 0.4234 measures 5.7e-4 (measured 0)
+TOL_R0_CONST = 3e-3
+# 0.162 lambda^2 r0^(-5/3) d^(-1/3): half-ulp of 0.162 is 3.1e-3 (measured 0)
+TOL_SLOPE_CONST = 6e-3
+# "the same bits" (defaults, results after other calls) decided at 4 ulp
+TOL_SAME = 1e-15
 
 LAMBDAS = [350e-9, 500e-9, 589e-9, 800e-9, 1.25e-6, 1.65e-6, 2.2e-6, 3.5e-6, 10e-6]
 R0S = [0.01, 0.03, 0.05, 0.1, 0.15, 0.2, 0.5, 1.0, 3.0]
@@ -101,7 +138,11 @@ def BOUNDS(tier):
             "winds": WINDS, "magnitudes": MAGS, "bands": BANDS, "masks": "all 64 binary masks of a 2x3 grid",
             "pixel_scales": PIXEL_SCALES, "exposures": EXPOSURES, "wvlBands": WVLBANDS,
             "profile_shapes": "all shapes of rank 1..3 with axis lengths 1..%d%s (%d shapes incl. 5 long ones: 300 layers, 130 / 257 profiles), every axis in -rank..rank-1"
-            % (3 if tier == "quick" else 4, "" if tier == "quick" else " and of rank 4 with lengths 1..2", len(_shapes(tier))), "subap_diameters": SUBAP_DIAMS}
+            % (3 if tier == "quick" else 5, "" if tier == "quick" else " and of rank 4 with lengths 1..3", len(_shapes(tier))), "subap_diameters": SUBAP_DIAMS,
+            "profiles_with_zero_layers": "lengths 2..6, 6 rotations of a 6-layer profile with two cn2 = 0 and two h (v) = 0 layers",
+            "pupil_masks_large": "annular pupils in 6x9, 24x40, 96x128, 128x128 arrays as float64 / float32 / int64 / int32 / uint8 / bool",
+            "slope_records": "2 x {1,2,3,5,12} sub-apertures x 2..280 frames (periodic patterns), 2 x 2 x {130..70002} frames (ramps)",
+            "largest_sizes": "300 layers, 257 profiles, 128x128 mask, 70002 frames"}
 
 
 def cases(tier):
@@ -123,6 +164,12 @@ def cases(tier):
         yield Case("slopes:lam=%s" % ("default500" if lam is None else "%g" % lam),
                    {"kind": "slopes", "lam": 500e-9 if lam is None else lam})
     yield Case("caller_owned_profiles", {"kind": "reuse"})
+    yield Case("caller_owned_slopes", {"kind": "slopes_reuse"})
+    yield Case("slopes_aggregation", {"kind": "slopes_agg"})
+    yield Case("caller_owned_masks", {"kind": "masks"})
+    yield Case("calling_conventions", {"kind": "conv"})
+    for fn in AXIS_FUNCS:
+        yield Case("zero_layers:%s" % fn, {"kind": "zeros", "fn": fn})
     for fn in AXIS_FUNCS:
         for sh in _shapes(tier):
             yield Case("axis:%s:shape=%s" % (fn, "x".join(map(str, sh))),
@@ -174,8 +221,9 @@ def _bandhist(p):
             got = _band_values(b)
             o.stat("lib_calls", 3)
             for name, g, w in zip(("magnitude_to_flux", "flux_to_magnitude", "photons_per_band"), got, _BAND_TABLE[b]):
-                o.check("band_result_independent_of_history", g == w, sub="%s:%s:after=%s,%s" % (name, b, b1, b2),
-                        detail={"got": g, "pristine": w})
+                # same function, same arguments: the same number (decided at 4 ulp, not bit for bit)
+                o.check("band_result_independent_of_history", abs(g - w) <= TOL_SAME * max(1.0, abs(w)),
+                        sub="%s:%s:after=%s,%s" % (name, b, b1, b2), detail={"got": g, "pristine": w})
     o.stat("nontrivial", len(BANDS))
     return o
 
@@ -184,7 +232,36 @@ def evaluate(p):
     if p["kind"] == "bandhist":
         return _bandhist(p)
     return {"inv": _inv, "law": _law, "mag": _mag, "phot": _phot, "photmag": _photmag, "layer": _layer,
-            "slopes": _slopes, "axis": _axis, "reuse": _reuse}[p["kind"]](p)
+            "slopes": _slopes, "axis": _axis, "reuse": _reuse, "slopes_reuse": _slopes_reuse, "slopes_agg": _slopes_agg,
+            "masks": _mask_variants, "conv": _conventions, "zeros": _zeros}[p["kind"]](p)
+
+
+def _accepts(o, key, call):
+    """(True, value) when the library accepts an input that the statement does not quantify over (arrays handed to
+    the scalar converters, other dtypes, a broadcast vector ...); (False, None) plus the statistic <key>_not_claimed
+    when it rejects it with an exception - never a violation"""
+    try:
+        return True, call()
+    except Exception as e:
+        o.stat(key + "_not_claimed", 1)
+        o.note(key + "_not_claimed", "%s: %s" % (type(e).__name__, str(e)[:120]))
+        return False, None
+
+
+def _guard_dtypes(o, key, f, base_value):
+    """f for variants.check_storage: an exception on an input that is not float64 (integer, float32, bool storage
+    of the same values - an extension of the statement) is recorded as <key>_not_claimed and answered with the
+    float64 result; float64 inputs in another memory layout go to the library unguarded"""
+    def g(arr):
+        if numpy.asarray(arr).dtype == numpy.float64:
+            return f(arr)
+        try:
+            return f(arr)
+        except Exception as e:
+            o.stat(key + "_not_claimed", 1)
+            o.note(key + "_not_claimed", "%s %s: %s" % (numpy.asarray(arr).dtype, type(e).__name__, str(e)[:120]))
+            return base_value
+    return g
 
 
 def _kw(lam):
@@ -209,25 +286,43 @@ def _inv(p):
     o.close("inverse_pair", w1, TOL, sub="bwd(fwd(x))", detail="%s then %s" % (fwd.__name__, bwd.__name__))
     o.close("inverse_pair", w2, TOL, sub="fwd(bwd(y))", detail="%s then %s" % (bwd.__name__, fwd.__name__))
     # arrays: elementwise the same numbers as scalars, and the same inverse identity
+    # (the converters are documented for scalars: an extension, skipped when the library does not take arrays)
     for vals, f, g in ((xs, fwd, bwd), (ys, bwd, fwd)):
         a1 = numpy.array(vals)
         a2 = numpy.array([vals, vals[::-1]])
         s = numpy.array([float(f(v, **kw)) for v in vals])
-        y1 = numpy.asarray(f(a1.copy(), **kw))
-        y2 = numpy.asarray(f(a2.copy(), **kw))
         o.stat("lib_calls", len(vals) + 2)
-        ok = y1.shape == a1.shape and y2.shape == a2.shape
-        o.check("array_elementwise", ok, sub=f.__name__, detail="shapes %s %s" % (y1.shape, y2.shape))
-        if ok:
-            o.close("array_elementwise", max(_rel(y1, s), _rel(y2, numpy.array([s, s[::-1]]))), TOL, sub=f.__name__)
-            o.close("inverse_pair", _rel(g(f(a2.copy(), **kw), **kw), a2), TOL, sub="arrays:" + f.__name__)
+        ok, ys_ = _accepts(o, "array_elementwise", lambda: (numpy.asarray(f(a1.copy(), **kw), dtype=float),
+                                                           numpy.asarray(f(a2.copy(), **kw), dtype=float)))
+        if not ok:
+            continue
+        y1, y2 = ys_
+        if not (y1.shape == a1.shape and y2.shape == a2.shape):
+            o.stat("array_elementwise_not_claimed", 1)
+            o.note("array_elementwise_not_claimed", "%s: shapes %s %s" % (f.__name__, y1.shape, y2.shape))
+            continue
+        o.close("array_elementwise", max(_rel(y1, s), _rel(y2, numpy.array([s, s[::-1]]))), TOL, sub=f.__name__)
+        ok, back = _accepts(o, "array_elementwise", lambda: numpy.asarray(g(f(a2.copy(), **kw), **kw), dtype=float))
+        if ok and back.shape == a2.shape:
+            o.close("inverse_pair", _rel(back, a2), TOL, sub="arrays:" + f.__name__)
             o.stat("lib_calls", 2)
     # the default wavelength is 500 nm
     if p["lam"] is None:
         d = max(_rel(fwd(x), fwd(x, lamda=500e-9)) for x in xs)
         d = max(d, max(_rel(bwd(y), bwd(y, lamda=500e-9)) for y in ys))
         o.stat("lib_calls", 2 * (len(xs) + len(ys)))
-        o.close("default_wavelength_500nm", d, 0.0)
+        o.close("default_wavelength_500nm", d, TOL_SAME)
+    # the absolute scale, to the rounding of the quoted constants: r0 = [0.423 k^2 J]^(-3/5), seeing = 0.98 lambda / r0
+    # in arcseconds (every other clause of this case holds for ANY shared constant and ANY angular unit)
+    if p["pair"] == "cn2_r0":
+        o.close("r0_is_0.423_k2_J", max(_rel(fwd(x, **kw), ref.r0_from_cn2(x, lam)) for x in xs), TOL_R0_CONST)
+        o.stat("lib_calls", len(xs))
+    if p["pair"] == "r0_seeing":
+        o.close("seeing_is_0.98_lambda_over_r0_arcsec", max(_rel(fwd(x, **kw), ref.seeing_from_r0(x, lam)) for x in xs),
+                TOL_SEEING_CONST)
+        o.close("seeing_is_0.98_lambda_over_r0_arcsec", max(_rel(bwd(y, **kw), 0.98 * lam * ref.ARCSEC / y) for y in ys),
+                TOL_SEEING_CONST, sub="seeing_to_r0")
+        o.stat("lib_calls", len(xs) + len(ys))
     # composites equal the compositions of the elementary converters
     if p["pair"] == "cn2_seeing":
         c1 = max(_rel(ac.cn2_to_seeing(x, **kw), ac.r0_to_seeing(ac.cn2_to_r0(x, **kw), **kw)) for x in xs)
@@ -279,9 +374,13 @@ def _law(p):
         base = float(f(R0S[0], lams[0], SUBAP_DIAMS[0]))
         w = max(_rel(f(R0S[0], lams[0], d), base * (d / SUBAP_DIAMS[0]) ** (-1.0 / 3.0)) for d in SUBAP_DIAMS)
         o.close("power_law", w, TOL, sub="var~d^(-1/3)")
-        w = max(_rel(f(r, l, d), ref.slope_variance(r, l, d)) for r in R0S for l in lams for d in SUBAP_DIAMS)
+        # library / reference is ONE number (the constant, whatever its rounding) ...
+        k0 = float(f(R0S[0], lams[0], SUBAP_DIAMS[0])) / ref.slope_variance(R0S[0], lams[0], SUBAP_DIAMS[0])
+        w = max(_rel(f(r, l, d), k0 * ref.slope_variance(r, l, d)) for r in R0S for l in lams for d in SUBAP_DIAMS)
         o.stat("lib_calls", len(SUBAP_DIAMS) * (1 + len(R0S) * len(lams)))
-        o.close("slope_variance_law", w, TOL, detail="0.162 lambda^2 r0^(-5/3) d^(-1/3)")
+        o.close("slope_variance_law", w, TOL, detail="const lambda^2 r0^(-5/3) d^(-1/3)")
+        # ... which is 0.162 to its rounding
+        o.close("slope_variance_constant_0.162", abs(k0 - 1.0), TOL_SLOPE_CONST)
     else:
         # profile integrals, single layer: tau0, theta0 ~ lambda^(6/5) cn2^(-3/5) w^(-1); rytov ~ k^(7/6) cn2 h^(5/6)
         second = WINDS if fn == "coherenceTime" else HEIGHTS
@@ -298,7 +397,7 @@ def _law(p):
         o.close("power_law", worst, TOL, sub="single layer")
         d = max(_rel(float(f(numpy.array([c]), numpy.array([second[3]]))),
                      float(f(numpy.array([c]), numpy.array([second[3]]), 500e-9))) for c in CN2S)
-        o.close("default_wavelength_500nm", d, 0.0)
+        o.close("default_wavelength_500nm", d, TOL_SAME)
     o.outcome([fn])
     return o
 
@@ -330,18 +429,31 @@ def _mag(p):
     w = max(abs(a.flux_to_magnitude(x, b) - a.flux_to_magnitude(100.0 * x, b) - 5.0) for x in fluxes)
     o.stat("lib_calls", 2 * len(fluxes))
     o.close("five_mag_factor_100", w, 1e-11, sub="flux_to_magnitude")
-    # arrays of magnitudes
-    arr = numpy.asarray(a.magnitude_to_flux(numpy.array(MAGS), b))
-    arr2 = numpy.asarray(a.magnitude_to_flux(numpy.array([MAGS, MAGS[::-1]]), b))
+    # arrays of magnitudes (documented 'magnitude (float)': an extension, skipped when the library does not take arrays)
+    ok, arrs = _accepts(o, "array_elementwise", lambda: (
+        numpy.asarray(a.magnitude_to_flux(numpy.array(MAGS), b), dtype=float),
+        numpy.asarray(a.magnitude_to_flux(numpy.array([MAGS, MAGS[::-1]]), b), dtype=float)))
     o.stat("lib_calls", 2)
-    ok = arr.shape == (len(MAGS),) and arr2.shape == (2, len(MAGS))
-    o.check("array_elementwise", ok, detail="shapes %s %s" % (arr.shape, arr2.shape))
-    if ok:
-        o.close("array_elementwise", max(_rel(arr, fl), _rel(arr2, numpy.array([fl, fl[::-1]]))), TOL)
+    if ok and arrs[0].shape == (len(MAGS),) and arrs[1].shape == (2, len(MAGS)):
+        o.close("array_elementwise", max(_rel(arrs[0], fl), _rel(arrs[1], numpy.array([fl, fl[::-1]]))), TOL)
+    elif ok:
+        o.stat("array_elementwise_not_claimed", 1)
+        o.note("array_elementwise_not_claimed", "magnitude_to_flux: shapes %s %s" % (arrs[0].shape, arrs[1].shape))
+    # magnitudes that are not on the 2.5 mag lattice and not Python floats (int, numpy integer / float scalars)
+    odd = [10, numpy.int64(10), numpy.int32(-3), numpy.float64(7.3), 7.3, -1.234, 19.99, 0]
+    w = w5 = 0.0
+    for m in odd:
+        f0 = float(a.magnitude_to_flux(m, b))
+        w = max(w, abs(a.flux_to_magnitude(f0, b) - float(m)) / max(1.0, abs(float(m))))
+        w5 = max(w5, _rel(f0 / float(a.magnitude_to_flux(m + 5, b)), 100.0))
+    o.stat("lib_calls", 3 * len(odd))
+    o.close("mag_flux_inverse", w, TOL, sub="off_lattice_and_integer_magnitudes")
+    o.close("five_mag_factor_100", w5, TOL, sub="off_lattice_and_integer_magnitudes")
     # default band is V
     if b == "V":
-        o.close("default_band_V", max(_rel(a.magnitude_to_flux(m), a.magnitude_to_flux(m, "V")) for m in MAGS), 0.0)
-        o.close("default_band_V", max(abs(a.flux_to_magnitude(x) - a.flux_to_magnitude(x, "V")) for x in fluxes), 0.0,
+        o.close("default_band_V", max(_rel(a.magnitude_to_flux(m), a.magnitude_to_flux(m, "V")) for m in MAGS), TOL_SAME)
+        o.close("default_band_V", max(abs(a.flux_to_magnitude(x) - a.flux_to_magnitude(x, "V")) /
+                                      max(1.0, abs(a.flux_to_magnitude(x, "V"))) for x in fluxes), TOL_SAME,
                 sub="flux_to_magnitude")
     o.outcome([b, fl[2]])
     return o
@@ -352,6 +464,14 @@ def _masks():
         yield numpy.array(bits, dtype=float).reshape(2, 3)
 
 
+def _pupil(rows, cols):
+    """0/1 float64 mask: a circular pupil with a central obscuration, off centre in a rows x cols array"""
+    y, x = numpy.mgrid[0:rows, 0:cols]
+    r = numpy.hypot(y - 0.45 * rows, x - 0.4 * cols)
+    rad = 0.4 * min(rows, cols)
+    return ((r <= rad) & (r >= 0.25 * rad)).astype(float)
+
+
 def _phot(p):
     """photons_per_band == flux x exposure x area, linear in area and time, 5 mag = x100"""
     o = Out()
@@ -359,7 +479,7 @@ def _phot(p):
     b = p["band"]
     worst = wlin = w5 = 0.0
     n = 0
-    unit = {m: a.photons_per_band(m, numpy.ones((1, 1)), 1.0, 1.0, b) for m in MAGS}
+    unit = {m: float(a.photons_per_band(m, numpy.ones((1, 1)), 1.0, 1.0, b)) for m in MAGS}
     for m in MAGS:
         fl = float(a.magnitude_to_flux(m, b))
         worst = max(worst, _rel(unit[m], fl))
@@ -370,8 +490,9 @@ def _phot(p):
                 for m in (MAGS[0], MAGS[4], MAGS[-1]):
                     got = a.photons_per_band(m, mask.copy(), ps, t, b)
                     n += 1
-                    if not isinstance(got, float):
-                        o.check("photons_is_float", False, detail=repr(type(got)))
+                    if not isinstance(got, float):        # an observation: the statement does not name the type
+                        o.note("photons_per_band_result_type", repr(type(got)))
+                    got = float(got)
                     want = unit[m] * area_px * ps * ps * t
                     if want == 0.0:
                         wlin = max(wlin, abs(got))
@@ -383,9 +504,20 @@ def _phot(p):
     o.close("composite_is_composition", worst, TOL, sub="photons_per_band=flux*t*area")
     o.close("photons_linear_in_area_time", wlin, TOL)
     o.close("five_mag_factor_100", w5, TOL, sub="photons_per_band")
+    # magnitudes off the 2.5 mag lattice and of integer type, on a mask of a realistic size that is not square
+    big = _pupil(24, 40)
+    wo = wo5 = 0.0
+    odd = [10, numpy.int64(10), 7.3, -1.234, numpy.float64(3.21)]
+    for m in odd:
+        got = float(a.photons_per_band(m, big.copy(), 0.05, 0.002, b))
+        wo = max(wo, _rel(got, float(a.magnitude_to_flux(m, b)) * 0.002 * float(big.sum()) * 0.05 ** 2))
+        wo5 = max(wo5, _rel(got / float(a.photons_per_band(m + 5, big.copy(), 0.05, 0.002, b)), 100.0))
+    o.stat("lib_calls", 3 * len(odd))
+    o.close("composite_is_composition", wo, TOL, sub="photons_per_band=flux*t*area:off_lattice_and_integer_magnitudes")
+    o.close("five_mag_factor_100", wo5, TOL, sub="photons_per_band:off_lattice_and_integer_magnitudes")
     if b == "V":
         o.close("default_band_V", max(_rel(a.photons_per_band(m, numpy.ones((2, 2)), 0.5, 0.1),
-                                           a.photons_per_band(m, numpy.ones((2, 2)), 0.5, 0.1, "V")) for m in MAGS), 0.0)
+                                           a.photons_per_band(m, numpy.ones((2, 2)), 0.5, 0.1, "V")) for m in MAGS), TOL_SAME)
     o.outcome([b, unit[0.0]])
     return o
 
@@ -394,7 +526,7 @@ def _photmag(p):
     """photons_per_mag: proportional to area, band width and exposure time; 5 mag = x100"""
     o = Out()
     a = _astro()
-    unit = {m: a.photons_per_mag(m, numpy.ones((1, 1)), 1.0, 1.0, 1.0) for m in MAGS}
+    unit = {m: float(a.photons_per_mag(m, numpy.ones((1, 1)), 1.0, 1.0, 1.0)) for m in MAGS}
     wlin = 0.0
     n = len(MAGS)
     for mask in _masks():
@@ -402,13 +534,24 @@ def _photmag(p):
             for t in EXPOSURES:
                 for wb in WVLBANDS:
                     for m in (MAGS[0], MAGS[5], MAGS[-1]):
-                        got = a.photons_per_mag(m, mask.copy(), ps, wb, t)
+                        got = float(a.photons_per_mag(m, mask.copy(), ps, wb, t))
                         n += 1
                         want = unit[m] * mask.sum() * ps * ps * wb * t
                         wlin = max(wlin, abs(got) if want == 0.0 else _rel(got, want))
     o.stat("lib_calls", n)
     o.close("photons_linear_in_area_time", wlin, TOL, sub="photons_per_mag")
     o.close("five_mag_factor_100", max(_rel(unit[m] / unit[m + 5.0], 100.0) for m in MAGS[:-2]), TOL, sub="photons_per_mag")
+    big = _pupil(24, 40)
+    wo = wo5 = 0.0
+    odd = [10, numpy.int64(10), 7.3, -1.234, numpy.float64(3.21)]
+    for m in odd:
+        got = float(a.photons_per_mag(m, big.copy(), 0.05, 30.0, 0.002))
+        one = float(a.photons_per_mag(m, numpy.ones((1, 1)), 1.0, 1.0, 1.0))
+        wo = max(wo, _rel(got, one * float(big.sum()) * 0.05 ** 2 * 30.0 * 0.002))
+        wo5 = max(wo5, _rel(got / float(a.photons_per_mag(m + 5, big.copy(), 0.05, 30.0, 0.002)), 100.0))
+    o.stat("lib_calls", 3 * len(odd))
+    o.close("photons_linear_in_area_time", wo, TOL, sub="photons_per_mag:off_lattice_and_integer_magnitudes")
+    o.close("five_mag_factor_100", wo5, TOL, sub="photons_per_mag:off_lattice_and_integer_magnitudes")
     o.outcome([unit[0.0]])
     return o
 
@@ -420,21 +563,31 @@ def _layer(p):
     kw = _kw(p["lam"])
     w_iso = w_tau = w_ref_i = w_ref_t = 0.0
     lam = 500e-9 if p["lam"] is None else p["lam"]
+    coef_i, coef_t, txt_i, txt_t = [], [], [], []
     for c in CN2S:
         r0 = float(ac.cn2_to_r0(c, **kw))
         for h in HEIGHTS:
             got = float(ac.isoplanaticAngle(numpy.array([c]), numpy.array([h]), **kw))
             w_iso = max(w_iso, _rel(got, 0.314 * r0 / h * ref.ARCSEC))
             w_ref_i = max(w_ref_i, _rel(got, ref.isoplanatic_angle([c], [h], lam)))
+            coef_i.append(got * h / (r0 * ref.ARCSEC))
+            txt_i.append(got / ref.isoplanatic_angle([c], [h], lam))
         for v in WINDS:
             got = float(ac.coherenceTime(numpy.array([c]), numpy.array([v]), **kw))
             w_tau = max(w_tau, _rel(got, 0.314 * r0 / v))
             w_ref_t = max(w_ref_t, _rel(got, ref.coherence_time([c], [v], lam)))
+            coef_t.append(got * v / r0)
+            txt_t.append(got / ref.coherence_time([c], [v], lam))
     o.stat("lib_calls", len(CN2S) * (1 + len(HEIGHTS) + len(WINDS)))
+    # "to the rounding of the published constants" (see TOL_LAYER) ...
     o.close("single_layer_isoplanatic_0.314_r0_over_h", w_iso, TOL_LAYER)
     o.close("single_layer_coherence_0.314_r0_over_v", w_tau, TOL_LAYER)
-    o.close("single_layer_textbook_2.914", max(w_ref_i, w_ref_t), TOL_LAYER,
+    o.close("single_layer_textbook_2.914", max(w_ref_i, w_ref_t), TOL_TEXTBOOK,
             detail="[2.914 k^2 cn2 w^(5/3)]^(-3/5)")
+    # ... and what no rounding of a constant explains: the coefficient theta0 h / r0 (tau0 v / r0, library / textbook)
+    # is ONE number for every Cn2, height and speed
+    for name, vals in (("theta0*h/r0", coef_i), ("tau0*v/r0", coef_t), ("theta0/textbook", txt_i), ("tau0/textbook", txt_t)):
+        o.close("single_layer_coefficient_is_one_number", _rel(vals, vals[0]), TOL, sub=name, detail={"coefficient": vals[0]})
     o.outcome([lam, w_iso])
     return o
 
@@ -517,19 +670,31 @@ def _reuse(p):
     hi = numpy.array([0., 2000., 5000., 10000., 15000., 22000.])
     ci = numpy.array([5e-15, 2e-15, 1e-15, 3e-15, 1e-15, 4e-16])
     wi = numpy.array([5., 10., 20., 30., 15., 60.])
+    # (other dtypes are an extension of the statement: a library that REJECTS them with an exception is not failed -
+    #  statistic profile_dtype_not_claimed; one that accepts them must give the numbers of the float64 values. float32 is
+    #  decided at 1e-5 by check_storage, 100 x the measured 1e-7)
     for name, second in (("coherenceTime", wi), ("isoplanaticAngle", hi), ("rytov_variance", hi)):
         f = getattr(ac, name)
-        k += variants.check_storage(o, "profile_independent_of_storage", lambda x: f(ci.copy(), x, 800e-9), second, 1e-12,
-                                    sub=name, kinds=("int64", "int32", "uint16", "float32"))
-        k += variants.check_storage(o, "profile_independent_of_storage", lambda x: f(numpy.array([ci, ci[::-1]]), x, 800e-9, -1),
-                                    numpy.array([second, second[::-1]]), 1e-12, sub=name + ":stack", kinds=("int64", "float32"))
+        f1 = lambda x: f(ci.copy(), x, 800e-9)
+        f2 = lambda x: f(numpy.array([ci, ci[::-1]]), x, 800e-9, -1)
+        st = numpy.array([second, second[::-1]])
+        k += variants.check_storage(o, "profile_independent_of_storage", _guard_dtypes(o, "profile_dtype", f1, f1(second.copy())),
+                                    second, 1e-12, sub=name, kinds=("int64", "int32", "uint16", "float32"))
+        k += variants.check_storage(o, "profile_independent_of_storage", _guard_dtypes(o, "profile_dtype", f2, f2(st.copy())),
+                                    st, 1e-12, sub=name + ":stack", kinds=("int64", "float32"))
     # one array through a chain of different functions: every later result is what a pristine copy gives
     hh = h.copy()
     got = [float(ac.isoplanaticAngle(cn2, hh)), float(ac.rytov_variance(cn2, hh)), float(ac.isoplanaticAngle(cn2, hh))]
     want = [float(ac.isoplanaticAngle(cn2.copy(), h.copy())), float(ac.rytov_variance(cn2.copy(), h.copy())),
             float(ac.isoplanaticAngle(cn2.copy(), h.copy()))]
     o.close("chain_on_one_array_equals_pristine", _rel(got, want), 1e-13)
+    # the scalar converters on a caller-owned array of values (arrays are an extension: skipped when not accepted)
     for name in ("cn2_to_r0", "r0_to_cn2", "r0_to_seeing", "seeing_to_r0", "cn2_to_seeing", "seeing_to_cn2"):
+        ok, y = _accepts(o, "values", lambda: numpy.asarray(getattr(ac, name)(numpy.array([0.1, 0.15, 0.2]), 6e-7), dtype=float))
+        if not ok or y.shape != (3,):
+            if ok:
+                o.stat("values_not_claimed", 1)
+            continue
         k += variants.check_reuse(o, "values", lambda x: getattr(ac, name)(x, 6e-7), numpy.array([0.1, 0.15, 0.2]), 1e-13,
                                   sub=name, mutate=scale_)
     o.stat("lib_calls", k + 6)
@@ -550,6 +715,11 @@ def _axis(p):
     ladder = WINDS if fn == "coherenceTime" else HEIGHTS
     w = numpy.array(ladder)[(idx * 5 + 2) % len(ladder)]      # same shape as cn2
     lam = 800e-9
+    # the constant of this function in the library under test, relative to the textbook constant, from ONE single-layer
+    # call: whatever its rounding (bounded below), it is the same number for every profile, shape and axis
+    k0 = float(f(numpy.array([3e-15]), numpy.array([ladder[4]]), lam)) / refn([3e-15], [ladder[4]], lam)
+    o.stat("lib_calls", 1)
+    o.close("profile_constant_within_rounding", abs(k0 - 1.0), TOL_TEXTBOOK, detail={"library/textbook": k0})
     for axis in list(range(-rank, rank)) + ["default"]:
         ax = -1 if axis == "default" else axis
         got = numpy.asarray(f(cn2.copy(), w.copy(), lam) if axis == "default" else f(cn2.copy(), w.copy(), lam, axis))
@@ -566,26 +736,260 @@ def _axis(p):
         o.close("axis_equals_loop", _rel(got, loop), TOL, sub=sub)
         # and the 1-D evaluation is the explicit sum of the definition (loop in the reference model)
         textbook = numpy.array([refn(c_m[i], w_m[i], lam) for i in range(c_m.shape[0])]).reshape(want_shape)
-        o.close("profile_sum_definition", _rel(got, textbook), TOL_LAYER, sub=sub)
-    # 1-D height / velocity vector shared by all profiles (broadcast along the last axis)
+        o.close("profile_sum_definition", _rel(got, k0 * textbook), TOL, sub=sub)
+    # 1-D height / velocity vector shared by all profiles (broadcast along the last axis): an extension of the statement
+    # (the docstring asks for the altitude scale of cn2) - skipped when the library does not accept it
     w1 = numpy.array(ladder)[(numpy.arange(shape[-1]) * 5 + 2) % len(ladder)]
-    got = numpy.asarray(f(cn2.copy(), w1.copy(), lam))
+    ok, got = _accepts(o, "shared_1d_vector", lambda: numpy.asarray(f(cn2.copy(), w1.copy(), lam)))
     c_m = cn2.reshape(-1, shape[-1])
     loop = numpy.array([float(f(c_m[i].copy(), w1.copy(), lam)) for i in range(c_m.shape[0])]).reshape(shape[:-1])
     o.stat("lib_calls", 1 + c_m.shape[0])
-    if got.shape != shape[:-1]:
-        o.check("axis_equals_loop", False, sub="shared_1d_vector", detail="result shape %s" % (got.shape,))
-    else:
+    if ok and got.shape != shape[:-1]:
+        o.stat("shared_1d_vector_not_claimed", 1)
+        o.note("shared_1d_vector_not_claimed", "result shape %s" % (got.shape,))
+    elif ok:
         o.close("axis_equals_loop", _rel(got, loop), TOL, sub="shared_1d_vector")
     o.outcome([fn, shape, numpy.round(numpy.asarray(f(cn2, w, lam)) / numpy.asarray(f(cn2, w, lam)).flat[0], 9)])
     return o
 
 
-LEVEL_TEXT = ("All ladder products are enumerated completely: 9 values each of r0, integrated Cn2, seeing, heights and "
-              "wind speeds x 6 (quick) / 10 (thorough) wavelengths incl. the default, 13 magnitudes x all 12 bands, all 64 "
-              "masks of a 2x3 pupil x 6 pixel scales x 7 exposure times (x 5 band widths), 39 (quick) / 100 (thorough) "
+def _synthetic_slopes(ac, r0, lam, d, nsub, pat, reps=1, scale_rows=None):
+    """(2, nsub, nFrames) float64 slopes whose population variance along the frames is slope_variance_from_r0(r0) in
+    every row (times scale_rows[a, s]^2 when given): circular shifts of one pattern plus per-row offsets"""
+    var = float(ac.slope_variance_from_r0(r0, lam, d))
+    amp = math.sqrt(var / ref.population_variance(pat))
+    frames = numpy.array(pat * reps) * amp
+    sl = numpy.empty((2, nsub, len(frames)))
+    for a_ in range(2):
+        for s_ in range(nsub):
+            g = 1.0 if scale_rows is None else float(scale_rows[a_][s_])
+            sl[a_, s_] = g * numpy.roll(frames, a_ + s_) + 0.1 * amp * (s_ - a_)
+    return sl
+
+
+def _slopes_reuse(p):
+    """r0_from_slopes on caller-owned telemetry: the record is handed over as it is (not a copy), used again, edited by
+    the caller and used again; the same values as float32 (what a WFS delivers) and as views with the frame axis
+    elsewhere in memory give the same r0"""
+    from mc import variants
+    o = Out()
+    ac = _ac()
+    k = 0
+    pat = [2.0, -1.0, 0.0, 1.0, -2.0, 0.0, 0.5]
+    for lam, d, r0, nsub, reps in ((500e-9, 0.2, 0.1, 3, 2), (1.65e-6, 0.5, 0.15, 12, 40)):
+        sl = _synthetic_slopes(ac, r0, lam, d, nsub, pat, reps)
+        sub = "lam=%g,nsub=%d,frames=%d" % (lam, nsub, sl.shape[-1])
+        f = lambda x: ac.r0_from_slopes(x, lam, d)
+        o.close("slope_variance_r0_inverse", _rel(f(sl.copy()), r0), 1e-11, sub=sub)
+        k += 1 + variants.check_reuse(o, "slopes", f, sl, 1e-13, sub=sub, mutate=lambda a: a.__imul__(1.5))
+        # float32 telemetry: measured 1.6e-7 on the unchanged library, decided at 1e-5 by check_storage; a library that
+        # rejects float32 with an exception is not failed (statistic slopes_dtype_not_claimed)
+        k += variants.check_storage(o, "slopes_independent_of_storage", _guard_dtypes(o, "slopes_dtype", f, f(sl.copy())),
+                                    sl, 1e-12, sub=sub, kinds=("float32",))
+        # recorded frame by frame, (nFrames, 2, nSubaps), and handed over as the documented (2, nSubaps, nFrames) view
+        fr = numpy.ascontiguousarray(numpy.moveaxis(sl, -1, 0))
+        o.close("slopes_independent_of_storage", _rel(f(numpy.moveaxis(fr, 0, -1)), f(sl.copy())), 1e-12, sub=sub + ":frames_first_view")
+        k += 2
+    o.stat("lib_calls", k)
+    o.stat("nontrivial", 2)
+    return o
+
+
+def _slopes_agg(p):
+    """rows (sub-apertures, x / y) of DIFFERENT variance: the statement does not say how they are combined, so only
+    what every way of combining them satisfies is demanded - the result does not depend on the order of the
+    sub-apertures nor on which direction is called x, and lies between the smallest and the largest single-row value"""
+    o = Out()
+    ac = _ac()
+    pat = [2.0, -1.0, 0.0, 1.0, -2.0, 0.0]
+    k = 0
+    for lam, d, r0 in ((500e-9, 0.2, 0.1), (2.2e-6, 1.0, 0.5)):
+        for nsub in (2, 3, 5):
+            scale = [[1.0 + 0.25 * s_ + 0.6 * a_ for s_ in range(nsub)] for a_ in range(2)]
+            sl = _synthetic_slopes(ac, r0, lam, d, nsub, pat, 2, scale_rows=scale)
+            sub = "lam=%g,nsub=%d" % (lam, nsub)
+            got = float(ac.r0_from_slopes(sl.copy(), lam, d))
+            rows = numpy.array([[float(ac.r0_from_slopes(sl[a_:a_ + 1, s_:s_ + 1].copy(), lam, d)) for s_ in range(nsub)]
+                                for a_ in range(2)])
+            k += 1 + 2 * nsub
+            # a single row is the inverse pair itself: variance g^2 var(r0)  <->  r0 g^(-6/5)
+            o.close("slope_variance_r0_inverse", _rel(rows, r0 * numpy.array(scale) ** (-6.0 / 5.0)), 1e-11, sub="single_row:" + sub)
+            o.check("slopes_rows_combined_between_min_and_max",
+                    rows.min() * (1 - 1e-12) <= got <= rows.max() * (1 + 1e-12), sub=sub,
+                    detail={"got": got, "min": float(rows.min()), "max": float(rows.max())})
+            worst = 0.0
+            for perm in itertools.islice(itertools.permutations(range(nsub)), 1, 7):
+                worst = max(worst, _rel(ac.r0_from_slopes(sl[:, list(perm), :].copy(), lam, d), got))
+                k += 1
+            o.close("slopes_rows_order_irrelevant", worst, TOL, sub="subapertures:" + sub)
+            o.close("slopes_rows_order_irrelevant", _rel(ac.r0_from_slopes(sl[::-1].copy(), lam, d), got), TOL, sub="x_y_swapped:" + sub)
+            k += 1
+            o.outcome([lam, nsub, round(got / r0, 9)])
+    o.stat("lib_calls", k)
+    o.stat("nontrivial", 6)
+    return o
+
+
+def _mask_variants(p):
+    """photon counts on pupil masks as they are met in practice: caller-owned (handed over, not copied), of a realistic
+    size and not square, stored as bool / uint8 / int / float32, read-only, strided: the count of the float64 values"""
+    from mc import variants
+    o = Out()
+    a = _astro()
+    k = 0
+    def half_off(m):
+        m[: m.shape[0] // 2] = 0
+    for rows, cols in ((6, 9), (96, 128), (128, 128)):
+        mask = _pupil(rows, cols)
+        for name, f in (("photons_per_band", lambda m: a.photons_per_band(7.3, m, 0.05, 0.002, "R")),
+                        ("photons_per_mag", lambda m: a.photons_per_mag(7.3, m, 0.05, 30.0, 0.002))):
+            sub = "%s:%dx%d" % (name, rows, cols)
+            k += variants.check_reuse(o, "mask", f, mask, 1e-13, sub=sub, mutate=half_off)
+            # other dtypes: an extension (skipped when rejected with an exception, statistic mask_dtype_not_claimed)
+            g = _guard_dtypes(o, "mask_dtype", f, f(mask.copy()))
+            k += 1 + variants.check_storage(o, "photons_independent_of_mask_storage", g, mask, 1e-12, sub=sub,
+                                            kinds=("float32", "int64", "int32", "uint8"))
+            base = float(f(mask.copy()))
+            got = float(g(mask.astype(bool)))
+            k += 2
+            o.close("photons_independent_of_mask_storage", _rel(got, base), 1e-12, sub=sub + ":bool")
+    o.stat("lib_calls", k)
+    o.stat("nontrivial", 6)
+    return o
+
+
+def _conventions(p):
+    """the documented parameter names passed by keyword, and the wavelength as numpy scalar / 0-d array, give the
+    numbers of the positional call with a Python float"""
+    o = Out()
+    ac = _ac()
+    a = _astro()
+    k = 0
+
+    def same(sub, call_kw, call_pos, tol=TOL):
+        try:
+            got = call_kw()
+        except TypeError as e:           # a documented parameter name is part of the observable behaviour
+            o.check("keyword_equals_positional", False, sub=sub, detail="TypeError: %s" % str(e)[:160])
+            return
+        o.close("keyword_equals_positional", _rel(got, call_pos()), tol, sub=sub)
+
+    cn2 = numpy.array([[5e-15, 2e-15, 1e-15], [3e-15, 1e-15, 4e-15]])
+    hh = numpy.array([[100., 2000., 9000.], [500., 5000., 15000.]])
+    vv = numpy.array([[5., 10., 30.], [8., 20., 15.]])
+    for lam in (800e-9, 1.65e-6):
+        for name, x in (("cn2_to_r0", 3e-13), ("r0_to_cn2", 0.15), ("r0_to_seeing", 0.15), ("seeing_to_r0", 0.65),
+                        ("cn2_to_seeing", 3e-13), ("seeing_to_cn2", 0.65)):
+            f = getattr(ac, name)
+            same("%s:lamda=%g" % (name, lam), lambda: f(x, lamda=lam), lambda: f(x, lam))
+            k += 2
+        for name, second in (("coherenceTime", vv), ("isoplanaticAngle", hh), ("rytov_variance", hh)):
+            f = getattr(ac, name)
+            for ax in (0, 1, -1, -2):
+                same("%s:lamda=%g,axis=%d" % (name, lam, ax), lambda: f(cn2.copy(), second.copy(), lamda=lam, axis=ax),
+                     lambda: f(cn2.copy(), second.copy(), lam, ax))
+                same("%s:axis=%d,lamda=%g" % (name, ax, lam), lambda: f(cn2.copy(), second.copy(), axis=ax, lamda=lam),
+                     lambda: f(cn2.copy(), second.copy(), lam, ax))
+                k += 4
+            same("%s:axis=0_default_wavelength" % name, lambda: f(cn2.copy(), second.copy(), axis=0),
+                 lambda: f(cn2.copy(), second.copy(), 500e-9, 0))
+            same("%s:lamda=%g_default_axis" % (name, lam), lambda: f(cn2.copy(), second.copy(), lamda=lam),
+                 lambda: f(cn2.copy(), second.copy(), lam, -1))
+            k += 4
+        sl = _synthetic_slopes(ac, 0.12, lam, 0.3, 3, [1.0, -1.0, 0.5, -0.5])
+        same("r0_from_slopes:wavelength=%g,subapDiam" % lam, lambda: ac.r0_from_slopes(sl.copy(), wavelength=lam, subapDiam=0.3),
+             lambda: ac.r0_from_slopes(sl.copy(), lam, 0.3))
+        same("slope_variance_from_r0:wavelength=%g,subapDiam" % lam, lambda: ac.slope_variance_from_r0(0.12, wavelength=lam, subapDiam=0.3),
+             lambda: ac.slope_variance_from_r0(0.12, lam, 0.3))
+        k += 5
+        # the wavelength as numpy.float64 scalar and as 0-d array (an extension: skipped when rejected)
+        for tname, conv in (("numpy.float64", numpy.float64), ("0-d array", numpy.array)):
+            for name, args in (("cn2_to_r0", (3e-13,)), ("r0_to_cn2", (0.15,)), ("r0_to_seeing", (0.15,)), ("seeing_to_r0", (0.65,)),
+                               ("cn2_to_seeing", (3e-13,)), ("seeing_to_cn2", (0.65,)), ("coherenceTime", (cn2, vv)),
+                               ("isoplanaticAngle", (cn2, hh)), ("rytov_variance", (cn2, hh))):
+                f = getattr(ac, name)
+                ok, got = _accepts(o, "wavelength_type", lambda: numpy.asarray(f(*[numpy.copy(x) if isinstance(x, numpy.ndarray) else x for x in args],
+                                                                                 conv(lam)), dtype=float))
+                k += 2
+                if ok:
+                    want = numpy.asarray(f(*args, lam), dtype=float)
+                    if got.shape == want.shape:
+                        o.close("wavelength_type_irrelevant", _rel(got, want), TOL, sub="%s:%s:lam=%g" % (name, tname, lam))
+                    else:
+                        o.stat("wavelength_type_not_claimed", 1)
+    mask = _pupil(6, 9)
+    for b in ("V", "r", "K"):
+        same("magnitude_to_flux:waveband=%s" % b, lambda: a.magnitude_to_flux(7.3, waveband=b), lambda: a.magnitude_to_flux(7.3, b))
+        same("flux_to_magnitude:waveband=%s" % b, lambda: a.flux_to_magnitude(2.5e5, waveband=b), lambda: a.flux_to_magnitude(2.5e5, b))
+        same("photons_per_band:pxlScale,expTime,waveband=%s" % b,
+             lambda: a.photons_per_band(7.3, mask.copy(), pxlScale=0.05, expTime=0.002, waveband=b),
+             lambda: a.photons_per_band(7.3, mask.copy(), 0.05, 0.002, b))
+        same("photons_per_band:expTime,pxlScale,waveband=%s" % b,
+             lambda: a.photons_per_band(7.3, mask.copy(), expTime=0.002, waveband=b, pxlScale=0.05),
+             lambda: a.photons_per_band(7.3, mask.copy(), 0.05, 0.002, b))
+        k += 8
+    same("photons_per_mag:pixel_scale,wvlBand,exposure_time",
+         lambda: a.photons_per_mag(7.3, mask.copy(), pixel_scale=0.05, wvlBand=30.0, exposure_time=0.002),
+         lambda: a.photons_per_mag(7.3, mask.copy(), 0.05, 30.0, 0.002))
+    k += 2
+    o.stat("lib_calls", k)
+    o.stat("nontrivial", 1)
+    return o
+
+
+def _zeros(p):
+    """profiles with a ground layer (h = 0), calm layers (v = 0) and zero-strength padding layers (cn2 = 0), the normal
+    case in binned profiles: the explicit sum of the definition, and a layer that contributes nothing changes nothing"""
+    o = Out()
+    ac = _ac()
+    fn = p["fn"]
+    f = getattr(ac, fn)
+    refn = {"coherenceTime": ref.coherence_time, "isoplanaticAngle": ref.isoplanatic_angle, "rytov_variance": ref.rytov}[fn]
+    second = [0.0, 5.0, 0.0, 12.0, 30.0, 8.0] if fn == "coherenceTime" else [0.0, 500.0, 0.0, 4000.0, 9000.0, 16000.0]
+    cn2 = [4e-14, 0.0, 6e-15, 3e-15, 0.0, 1e-15]
+    lam = 800e-9
+    k0 = float(f(numpy.array([3e-15]), numpy.array([second[3]]), lam)) / refn([3e-15], [second[3]], lam)
+    k = 1
+    worst = w_pad = w_ground = w_stack = 0.0
+    for n in (2, 3, 4, 5, 6):
+        for rot in range(6):
+            c = [cn2[(i + rot) % 6] for i in range(n)]
+            w = [second[(i + 2 * rot) % 6] for i in range(n)]
+            if sum(ci * wi for ci, wi in zip(c, w)) == 0.0:
+                continue                                  # no layer contributes: the integrals are singular
+            got = float(f(numpy.array(c), numpy.array(w), lam))
+            worst = max(worst, _rel(got, k0 * refn(c, w, lam)))
+            # a zero-strength layer (at any height / speed) and a layer at h = 0 / v = 0 (of any strength) add nothing
+            for pos in (0, n // 2, n):
+                w_pad = max(w_pad, _rel(f(numpy.array(c[:pos] + [0.0] + c[pos:]), numpy.array(w[:pos] + [second[4]] + w[pos:]), lam), got))
+                w_ground = max(w_ground, _rel(f(numpy.array(c[:pos] + [7e-14] + c[pos:]), numpy.array(w[:pos] + [0.0] + w[pos:]), lam), got))
+            k += 7
+            # and the same profile as one row / one column of a stack
+            c2 = numpy.array([c, c[::-1]])
+            w2 = numpy.array([w, w[::-1]])
+            w_stack = max(w_stack, _rel(numpy.asarray(f(c2.copy(), w2.copy(), lam, -1))[0], got),
+                          _rel(numpy.asarray(f(c2.T.copy(), w2.T.copy(), lam, 0))[0], got))
+            k += 2
+    o.stat("lib_calls", k)
+    o.close("profile_sum_definition", worst, TOL, sub="profiles_with_zero_layers")
+    o.close("layer_without_contribution_changes_nothing", w_pad, TOL, sub="cn2=0")
+    o.close("layer_without_contribution_changes_nothing", w_ground, TOL, sub="h=0" if fn != "coherenceTime" else "v=0")
+    o.close("axis_equals_loop", w_stack, TOL, sub="profiles_with_zero_layers")
+    o.stat("nontrivial", 1)
+    o.outcome([fn, worst <= TOL])
+    return o
+
+
+LEVEL_TEXT = ("All ladder products are enumerated completely: 9 (thorough: 33) values each of r0, integrated Cn2, seeing, heights and "
+              "wind speeds x 7 (quick) / 10 (thorough) wavelengths incl. the default, 13 (thorough: 21) magnitudes x all 12 bands, all 64 "
+              "masks of a 2x3 pupil x 6 pixel scales x 7 exposure times (x 5 band widths), 44 (quick) / 241 (thorough) "
               "profile-array shapes of rank 1-3 (thorough: 1-4) x every axis value, 5 slope patterns x 6 diameters x 9 r0; every inverse "
-              "pair, composite, power law and reduction of the statement is evaluated on each point.")
+              "pair, composite, power law and reduction of the statement is evaluated on each point. Added spot families: "
+              "profiles with zero layers, caller-owned / float32 / re-laid-out slope records, rows of unequal variance, realistic "
+              "pupil masks in six dtypes, every documented keyword name, integer and off-lattice magnitudes.")
 LEVEL_NOTE = ("Trusted: IEEE arithmetic of pow/log10 and the reference formulas in mc/refmodels/conversions.py. Not "
               "covered: values between ladder points (extended only along exact power-law directions), profile arrays "
-              "of rank > 3, absolute calibration of the band table (not part of the statement).")
+              "of rank > 3 (thorough: > 4), absolute calibration of the band table (not part of the statement), the estimator used "
+              "to combine sub-apertures of unequal slope variance (not named by the statement; only symmetry and bounds are "
+              "demanded). Constants are decided to the rounding of their published digits only; extensions of the statement "
+              "(arrays to scalar converters, other dtypes, broadcast height vector) are skipped when the library rejects them.")
